@@ -162,9 +162,12 @@ func (c *crt) tlsCert() tls.Certificate {
 func (c *crt) coq() string {
 	return fmt.Sprintf("{| ski_ext := %s; pubkey := %s |}", vh.Opt(c.hasSki, vh.Hx(c.skiExt)), vh.Hx(c.spk))
 }
-func (c *crt) tblEntry() string {
-	return fmt.Sprintf("(%s, %s)", vh.Hx(c.spk), vh.Hx(c.sha[:]))
+
+// dcoq: the certificate paired with the digest of its key (Cert.v: dcert)
+func (c *crt) dcoq() string {
+	return fmt.Sprintf("(%s, %s)", c.coq(), vh.Hx(c.sha[:]))
 }
+
 func (c *crt) sample() map[string]any {
 	m := map[string]any{"kind": c.kind, "key_type": c.keyTyp, "ski_present": c.hasSki, "ski_ext": hex.EncodeToString(c.skiExt),
 		"sha1_of_subjectPublicKey": hex.EncodeToString(c.sha[:]), "der": hex.EncodeToString(c.der)}
@@ -177,23 +180,10 @@ func (c *crt) sample() map[string]any {
 	return m
 }
 
-func tblOf(cs ...*crt) string {
-	seen := map[string]bool{}
-	var parts []string
-	for _, c := range cs {
-		e := c.tblEntry()
-		if !seen[e] {
-			seen[e] = true
-			parts = append(parts, e)
-		}
-	}
-	return vh.List(parts)
-}
-
 func coqCerts(cs []*crt) string {
 	parts := make([]string, 0, len(cs))
 	for _, c := range cs {
-		parts = append(parts, c.coq())
+		parts = append(parts, c.dcoq())
 	}
 	return vh.List(parts)
 }
